@@ -84,13 +84,28 @@ def _template_ok(t: dict) -> bool:
         InstanceSpace(i)
     except Exception:  # noqa: BLE001
         return False
-    return int(i.n_items) - min(int(i.lower_bound_bins), int(i.n_items)) >= 1 \
-        and int(i.total_item_area) <= 1_000_000_000
+    return int(i.total_item_area) <= 1_000_000_000
 
 
 def gen_template(rng: random.Random) -> dict:
     if rng.random() < 0.35:
         return {"resource": rng.choice(SHIPPED)}
+    if rng.random() < 0.06:
+        # every item needs a bin of its own: the lower bound equals the item
+        # count and the vector consists of slack pairs only
+        W, H = rng.randint(2, 24), rng.randint(2, 24)
+        items = []
+        for _ in range(rng.randint(1, 3)):
+            w = W if rng.random() < 0.5 else rng.randint(W // 2 + 1, W)
+            h = H if w < W or rng.random() < 0.5 \
+                else rng.randint(H // 2 + 1, H)
+            items.append([w, h, rng.choice([1, 1, 2])])
+        t = {"W": W, "H": H, "items": items}
+        if _template_ok(t):
+            n, mb = _dims(t)
+            if n == mb:
+                t["suffix"] = rng.choice(["", "", "n"])
+                return t
     for _ in range(50):
         W, H = rng.randint(2, 24), rng.randint(2, 24)
         items = []
@@ -114,6 +129,8 @@ def gen_template(rng: random.Random) -> dict:
                 items.pop()
         t = {"W": W, "H": H, "items": items}
         if sum(i[2] for i in items) >= 2 and _template_ok(t):
+            if rng.random() < 0.15:
+                t["suffix"] = rng.choice(["n", "n", "nn", "_n"])
             return t
     return {"W": 5, "H": 4, "items": [[2, 3, 2], [1, 4, 1]]}
 
@@ -156,6 +173,8 @@ def _generate(rng: random.Random, batch: dict) -> dict:
     if rng.random() < 0.2:
         slack = rng.choice([0.125, 0.25])
         k = int(slack * (n_items - min_bins) + 0.5)
+    if n_items == min_bins and k == 0:
+        k = rng.choice([1, 2, 3])     # a vector needs at least one entry
     d = 2 * (n_items - min_bins) + 2 * k
     with_h = rng.random() < batch["hardness_p"]
     hard = {"max_fes": rng.choice([20, 30, 60]), "n_runs": rng.choice([1, 2, 3])}
@@ -276,7 +295,9 @@ def execute(doc: dict) -> dict:
     """Optionally followed by a twin: a different template with the SAME name,
     with its own space, decoder and objective objects."""
     tdoc0 = doc["template"]
-    name = None if "resource" in tdoc0 else "t" + core.digest(tdoc0)[:10]
+    # generated instances are used as templates again: names ending in "n"
+    name = None if "resource" in tdoc0 else "t" + core.digest(tdoc0)[:10] \
+        + tdoc0.get("suffix", "")
     res = _execute_one(doc, name)
     twin = doc.get("twin")
     if twin is not None and name is not None and res["violation"] is None:
@@ -311,7 +332,9 @@ def _execute_one(doc: dict, tname) -> dict:
     tdoc = doc["template"]
     template = packgen.build_instance(
         tdoc if "resource" in tdoc
-        else {**tdoc, "name": tname or ("t" + core.digest(tdoc)[:10])})
+        else {**{k: v for k, v in tdoc.items() if k != "suffix"},
+              "name": tname or ("t" + core.digest(tdoc)[:10]
+                                + tdoc.get("suffix", ""))})
     core.bump(res["probes"], "template:shipped" if "resource" in tdoc
               else "template:synthetic")
     space = InstanceSpace(template)
@@ -326,11 +349,25 @@ def _execute_one(doc: dict, tname) -> dict:
         core.bump(res["faults"], "slack_pairs>=2")
     if k == 0:
         core.bump(res["probes"], "slack_pairs:0")
+    # Templates in which every item needs its own bin: the decoder's
+    # get_x_dim refuses them (it wants room for at least one split, and the
+    # hardness objective refuses the resulting one-item-per-bin instances),
+    # so no vector length is admissible and there is nothing to decide. If
+    # the code under test admits such a template, everything below applies.
+    own_bins = n_items == min_bins
+    if own_bins:
+        core.bump(res["probes"], "template:every_item_its_own_bin")
+        try:
+            decoder.get_x_dim(0)
+        except ValueError:
+            core.bump(res["probes"], "template_refused_by_get_x_dim")
+            res["events"].append(["template-refused"])
+            return res
     if int(space.min_bins) != min_bins or int(space.n_items) != n_items \
             or decoder.get_x_dim(0) != 2 * (n_items - min_bins):
         core.violation(res, "space-does-not-mirror-template",
                        f"space min_bins={space.min_bins} n_items="
-                       f"{space.n_items} x_dim={decoder.get_x_dim(0)} for "
+                       f"{space.n_items} for "
                        f"template with {n_items} items / {min_bins} bins")
         return res
     base_dim = n_items - min_bins
@@ -567,6 +604,10 @@ def reductions(doc: dict):
     if doc["k"] > 0:
         for k in sorted({0, 1, 2, doc["k"] - 1}):
             if 0 <= k < doc["k"]:
+                if k == 0:
+                    n, mb = _dims(doc["template"])
+                    if n == mb:
+                        continue    # the vector would be empty
                 yield {**doc, "k": k}
     h = doc["hardness"]
     if h["n_runs"] > 1:
